@@ -6,6 +6,7 @@ package processors
 import (
 	"errors"
 	"fmt"
+	"regexp/syntax"
 	"strings"
 
 	"github.com/itchyny/rassemble-go"
@@ -113,8 +114,10 @@ func (a *Assemble) append(identifier string) error {
 			// Treat as literal, could be start of a group or a range expresssion.
 			// Those can not be parsed by rassemble-go, since they are not valid
 			// expressions.
-			a.output.WriteString(a.proc.lines[0])
-			a.proc.lines = []string{}
+			if _, err := syntax.Parse(a.proc.lines[0], syntax.Perl); err != nil {
+				a.output.WriteString(a.proc.lines[0])
+				a.proc.lines = []string{}
+			}
 		}
 		regex, err := a.runAssemble()
 		if err != nil {
